@@ -22,6 +22,10 @@ type vc09Op struct {
 	run       func(s *vc09Store) error
 	apply     func(m *vc09Model)
 	more      bool // trim: another call is needed
+	// tags name the secondary records that exist in the pre-state of this op and that the
+	// op must rewrite/remove together with its primary effect (section prepared-states:
+	// vacuity guards prove that every such situation was crash-enumerated)
+	tags []string
 
 	// used by the ack-while-peer-commit-in-fsync section (c09_pair_test.go):
 	// post states what a successful acknowledgement of this op promises about the durable
@@ -68,7 +72,11 @@ func (m *vc09Model) prepApp(ci int) *vc09Op {
 	id := m.allocID()
 	m.noteSeq(seq)
 	rec, row, _ := vc09MakeRecord(ci, seq, id, false)
-	return &vc09Op{kind: "app", ci: ci, predictOK: true, changes: true,
+	var tags []string
+	if c.HasRet && len(c.Rows) == 0 && c.LEO > 0 {
+		tags = append(tags, "app-log-end-held-by-retention-record-only")
+	}
+	return &vc09Op{kind: "app", ci: ci, predictOK: true, changes: true, tags: tags,
 		run: func(s *vc09Store) error {
 			base, err := s.stores[ci].Append([]channel.Record{rec})
 			if err == nil && base != seq-1 {
@@ -111,7 +119,14 @@ func (m *vc09Model) prepXhw(ci int) *vc09Op {
 		}
 		return res[0].Err
 	}
-	return &vc09Op{kind: "xhw", ci: ci, predictOK: ok, changes: true,
+	var tags []string
+	if ok && c.HasCkpt && base > c.HW {
+		tags = append(tags, "xhw-advances-an-existing-checkpoint")
+	}
+	if ok && c.HasRet {
+		tags = append(tags, "xhw-on-a-channel-with-retention-record")
+	}
+	return &vc09Op{kind: "xhw", ci: ci, predictOK: ok, changes: true, tags: tags,
 		run:   func(s *vc09Store) error { return submit(s, quorumlog.AppendOutcomeDurable) },
 		again: func(s *vc09Store) error { return submit(s, quorumlog.AppendOutcomeAlreadyDurable) },
 		apply: func(m *vc09Model) {
@@ -132,7 +147,11 @@ func (m *vc09Model) prepXhw(ci int) *vc09Op {
 }
 
 // prepFol: follower apply of one fetched record + leader HW + epoch boundary in one batch.
-func (m *vc09Model) prepFol(ci int) *vc09Op {
+func (m *vc09Model) prepFol(ci int) *vc09Op { return m.prepFolHW(ci, true) }
+
+// prepFolHW: withHW=false is the same apply without a leader HW (record + epoch boundary
+// only), which leaves epoch-history points ABOVE the committed watermark.
+func (m *vc09Model) prepFolHW(ci int, withHW bool) *vc09Op {
 	c := &m.Ch[ci]
 	seq := c.LEO + 1
 	id := m.allocID()
@@ -143,12 +162,24 @@ func (m *vc09Model) prepFol(ci int) *vc09Op {
 		epoch = c.Hist[n-1].Epoch + 1
 	}
 	point := channel.EpochPoint{Epoch: epoch, StartOffset: c.LEO}
+	// a newer epoch must not start below the last stored epoch boundary (plain Truncate keeps
+	// the epoch history, so boundaries above the log end can exist): refused as corrupt state
+	ok := true
+	if n := len(c.Hist); n > 0 && point.StartOffset < c.Hist[n-1].StartOffset {
+		ok = false
+	}
 	hw := seq
-	return &vc09Op{kind: "fol", ci: ci, predictOK: true, changes: true,
+	kind := "fol"
+	if !withHW {
+		kind, hw = "flo", 0
+	}
+	return &vc09Op{kind: kind, ci: ci, predictOK: ok, changes: true,
 		run: func(s *vc09Store) error {
-			leo, err := s.stores[ci].StoreApplyFetchTrustedWithEpoch(channel.ApplyFetchStoreRequest{
-				Records: []channel.Record{rec}, CheckpointHW: &hw,
-			}, &point)
+			req := channel.ApplyFetchStoreRequest{Records: []channel.Record{rec}}
+			if withHW {
+				req.CheckpointHW = &hw
+			}
+			leo, err := s.stores[ci].StoreApplyFetchTrustedWithEpoch(req, &point)
 			if err == nil && leo != seq {
 				return fmt.Errorf("apply returned leo %d, model %d", leo, seq)
 			}
@@ -158,7 +189,7 @@ func (m *vc09Model) prepFol(ci int) *vc09Op {
 			c := &m.Ch[ci]
 			c.Rows = append(c.Rows, row)
 			c.LEO = seq
-			if hw > c.HW {
+			if withHW && hw > c.HW {
 				c.HasCkpt, c.HW = true, hw
 			}
 			c.Hist = append(c.Hist, EpochPoint{Epoch: epoch, StartOffset: point.StartOffset})
@@ -282,19 +313,67 @@ func (m *vc09Model) prepTrn(ci int) *vc09Op {
 	if c.HW < c.LEO {
 		to = c.HW
 	}
+	return m.prepTrnTo(ci, to, true)
+}
+
+// prepTrnTo: suffix truncation to an explicit target (never below the committed HW: the
+// store leaves the checkpoint alone, truncating committed data is the caller's error).
+// history=true is TruncateLogAndHistory, history=false the plain Truncate (rows, indexes,
+// proposal identities and the retention record, but not the epoch history).
+func (m *vc09Model) prepTrnTo(ci int, to uint64, history bool) *vc09Op {
+	c := &m.Ch[ci]
+	if to > c.LEO || (c.HasCkpt && to < c.HW) {
+		return &vc09Op{kind: "trn", ci: ci, disabled: true}
+	}
 	ok := !(c.HasRet && to < c.Local)
 	for _, p := range c.Props {
 		if p.LastOffset > to && p.BaseOffset < to {
 			ok = false
 		}
 	}
-	return &vc09Op{kind: "trn", ci: ci, predictOK: ok, changes: true,
+	kind := "trn"
+	if !history {
+		kind = "trp"
+	}
+	// plain Truncate at the log end returns before it stages anything
+	writes := history || to < c.LEO
+	var tags []string
+	if ok && writes {
+		if c.HasRet && c.RMax > to {
+			tags = append(tags, kind+"-lowers-retained-max")
+			if len(c.Rows) > 0 && c.Rows[0].Seq <= to {
+				tags = append(tags, kind+"-lowers-retained-max-rows-remain")
+			}
+		}
+		for _, p := range c.Hist {
+			if p.StartOffset > to {
+				tags = append(tags, kind+"-epoch-history-above-target")
+				break
+			}
+		}
+		for _, p := range c.Props {
+			if p.LastOffset > to {
+				tags = append(tags, kind+"-proposal-identities-above-target")
+				break
+			}
+		}
+		if len(c.Rows) > 0 && c.Rows[len(c.Rows)-1].Seq > to {
+			tags = append(tags, kind+"-index-rows-above-target")
+		}
+	}
+	return &vc09Op{kind: kind, ci: ci, predictOK: ok, changes: writes, tags: tags,
 		run: func(s *vc09Store) error {
-			return s.stores[ci].TruncateLogAndHistory(context.Background(), to)
+			if history {
+				return s.stores[ci].TruncateLogAndHistory(context.Background(), to)
+			}
+			return s.stores[ci].Truncate(to)
 		},
 		apply: func(m *vc09Model) {
+			if !writes {
+				return
+			}
 			c := &m.Ch[ci]
-			c.cutAbove(to, true)
+			c.cutAbove(to, history)
 			if c.HasRet && c.RMax > to {
 				c.RMax = to
 			}
@@ -334,7 +413,17 @@ func (m *vc09Model) prepRep(ci int) *vc09Op {
 	m.noteSeq(seq)
 	rec, row, q := vc09MakeRecord(ci, seq, id, false)
 	man, entries := m.seal(ci, kt, c.maxTerm()+1, []quorumlog.Record{q})
-	return &vc09Op{kind: "rep", ci: ci, predictOK: true, changes: true,
+	var tags []string
+	if c.HasRet && c.RMax > seq {
+		tags = append(tags, "rep-lowers-retained-max")
+	}
+	if c.LEO > kt {
+		tags = append(tags, "rep-replaces-a-stored-suffix")
+	}
+	if c.HasCkpt && seq > c.HW {
+		tags = append(tags, "rep-advances-an-existing-checkpoint")
+	}
+	return &vc09Op{kind: "rep", ci: ci, predictOK: true, changes: true, tags: tags,
 		run: func(s *vc09Store) error {
 			ctx := context.Background()
 			fr, err := s.stores[ci].LoadDurableFrontier(ctx)
@@ -390,7 +479,17 @@ func (m *vc09Model) prepAdopt(ci int, through uint64) *vc09Op {
 	}
 	retChange := local != c.Local || rmax != c.RMax
 	curChange := !c.HasCursor || c.Cursor < local
-	return &vc09Op{kind: "adopt", ci: ci, predictOK: true, changes: retChange || curChange,
+	var tags []string
+	if c.HasRet && retChange {
+		tags = append(tags, "adopt-rewrites-an-existing-retention-record")
+	}
+	if c.HasCkpt && through > c.HW {
+		tags = append(tags, "adopt-boundary-above-checkpoint")
+	}
+	if c.HasCursor && curChange {
+		tags = append(tags, "adopt-advances-an-existing-cursor")
+	}
+	return &vc09Op{kind: "adopt", ci: ci, predictOK: true, changes: retChange || curChange, tags: tags,
 		run: func(s *vc09Store) error {
 			return s.stores[ci].AdoptRetentionBoundary(context.Background(), through, vc09Cursor)
 		},
@@ -444,7 +543,19 @@ func (m *vc09Model) prepTrim(ci int, through uint64) *vc09Op {
 	if del != nil {
 		wantDeleted = 1
 	}
-	return &vc09Op{kind: "trim", ci: ci, predictOK: ok, changes: true, more: more,
+	var tags []string
+	if ok && c.HasRet && rmax > c.RMax {
+		tags = append(tags, "trim-raises-a-stale-retained-max")
+	}
+	if ok && del != nil && c.HasCkpt && del.Seq > c.HW {
+		tags = append(tags, "trim-deletes-a-row-above-checkpoint")
+	}
+	if ok && del != nil {
+		if _, has := c.Idents[del.Seq]; has {
+			tags = append(tags, "trim-deletes-a-row-with-proposal-identity")
+		}
+	}
+	return &vc09Op{kind: "trim", ci: ci, predictOK: ok, changes: true, more: more, tags: tags,
 		run: func(s *vc09Store) error {
 			res, err := s.stores[ci].TrimMessagesThroughLimit(context.Background(), through, RetentionTrimOptions{MaxMessages: 1})
 			if err == nil && (res.More != more || res.Deleted != wantDeleted) {
